@@ -72,7 +72,7 @@ def read_graph(backend, execution_id: str) -> tuple[list, dict]:
         return {"t": n.task_name.split(".")[-1], "argvals": av if av is not None else [],
                 "r": _val(backend, n.value_hash)}
 
-    flags = {"merkle": 1, "values": 1, "jobs": 1, "root": 1}
+    flags = {"merkle": 1, "values": 1, "jobs": 1, "root": 1, "edges": 1}
     out = []
     registry = get_type_registry()
     for h, n in nodes_by_hash.items():
@@ -112,6 +112,21 @@ def read_graph(backend, execution_id: str) -> tuple[list, dict]:
     roots = [j for j in jobs if j.parent_id is None]
     if ex is None or len(roots) != 1 or ex.job_id != roots[0].id:
         flags["root"] = 0
+    # the edges of the node a job recorded are exactly the call hashes of its child jobs, with multiplicity (a
+    # duplicate call collapsed onto its twin is still a child of its parent)
+    from collections import Counter
+
+    flags["edges"] = 1
+    kids_of: dict = {}
+    for j in jobs:
+        if j.parent_id is not None and j.call_hash:
+            kids_of.setdefault(j.parent_id, []).append(j.call_hash)
+    for j in jobs:
+        if j.cached or not j.call_hash or j.end_time is None:
+            continue
+        rec = [e.child_id for e in s.query(CallEdge).filter(CallEdge.parent_id == j.call_hash)]
+        if Counter(rec) != Counter(kids_of.get(j.id, [])):
+            flags["edges"] = 0
     for j in jobs:
         if j.parent_id is not None and j.parent_id not in ids:
             flags["jobs"] = 0
